@@ -36,6 +36,8 @@ STR_KINDS = {
     'NumericString': (18, 'us-ascii'),
     'PrintableString': (19, 'us-ascii'),
     'TeletexString': (20, 'iso-8859-1'),
+    'T61String': (20, 'iso-8859-1'),          # pyasn1 ships the X.680 synonyms as classes of their own
+    'ISO646String': (26, 'us-ascii'),
     'VideotexString': (21, 'iso-8859-1'),
     'IA5String': (22, 'us-ascii'),
     'GraphicString': (25, 'iso-8859-1'),
@@ -684,12 +686,17 @@ class ChoicePolicy(Policy):
     def length_form(self, n):
         if not self.long_len:
             return 0, False
-        r = self.c(3, 'len')
+        r = self.c(5, 'len')
         if r == 0:
             return 0, False
         if r == 1:
             return 0, True       # long form, minimal number of octets
-        return 1, True           # long form with one superfluous leading zero octet
+        if r == 2:
+            return 1, True       # long form with one superfluous leading zero octet
+        body = max(1, (n.bit_length() + 7) // 8)
+        if r == 3:
+            return 9 - body if body < 9 else 1, True      # nine length octets: more than a machine word
+        return 126 - body, True  # the longest length field X.690 8.1.3.5 allows
 
     def indefinite(self, what):
         if not self.indef:
